@@ -274,6 +274,7 @@ func (r *Reconciler) reconcileValidate(ctx context.Context, proposal *configapi.
 					}
 				}
 			}
+			removeDeletedDescendants(changeValues, details.Change.Values)
 			for _, path := range deletesFirst(details.Change.Values) {
 				changeValue := details.Change.Values[path]
 				deletedParentPath, deletedParentValue := applyChangeToConfig(changeValues, path, changeValue)
@@ -328,8 +329,10 @@ func (r *Reconciler) reconcileValidate(ctx context.Context, proposal *configapi.
 
 			switch targetProposal.Details.(type) {
 			case *configapi.Proposal_Change:
-				for path, rollbackValue := range targetProposal.Status.RollbackValues {
-					changeValues[path] = rollbackValue
+				// the candidate is what committing the rollback values produces (see reconcileCommit)
+				removeDeletedDescendants(changeValues, targetProposal.Status.RollbackValues)
+				for _, path := range deletesFirst(targetProposal.Status.RollbackValues) {
+					_, _ = applyChangeToConfig(changeValues, path, targetProposal.Status.RollbackValues[path])
 				}
 				rollbackIndex = targetProposal.Status.RollbackIndex
 				rollbackValues = targetProposal.Status.RollbackValues
@@ -524,6 +527,23 @@ func deletesFirst(changeValues map[string]*configapi.PathValue) []string {
 		}
 	}
 	return paths
+}
+
+// removeDeletedDescendants removes from the candidate values everything beneath a path the change deletes, unless the
+// change itself says what becomes of it: the commit cascades a delete to the stored descendants (AddDeleteChildren) also
+// when the change writes another value beneath the deleted path, which clears that path's tombstone from the candidate.
+// The document validated must be the configuration the commit produces.
+func removeDeletedDescendants(values map[string]*configapi.PathValue, changeValues map[string]*configapi.PathValue) {
+	for _, changeValue := range changeValues {
+		if !changeValue.Deleted {
+			continue
+		}
+		for path := range values {
+			if _, named := changeValues[path]; !named && path != changeValue.Path && utils.IsPathOrDescendant(path, changeValue.Path) {
+				delete(values, path)
+			}
+		}
+	}
 }
 
 func applyChangeToConfig(values map[string]*configapi.PathValue, path string, value *configapi.PathValue) (string, *configapi.PathValue) {
